@@ -2,8 +2,8 @@
 
 spec -> TLC:   spec/mc/MC_C05.tla: the codec laws of Bits.tla for every width 1..128, both byte orders, a
                pattern family per width, all values at small widths; 32/64-bit float patterns.
-spec -> impl:  every case replayed through Bitstr::from_int / to_uint / to_int / from_f* / to_f* at all 8 bit
-               offsets with both stale-bit fillings, and through the language words (int! / int / uint / f64).
+spec -> impl:  every case replayed through Bitstr::from_int / to_uint / to_int / from_f* / to_f* at 24 bit
+               offsets (every alignment within a byte, and fields starting beyond the first bytes of the buffer) with both stale-bit fillings, and through the language words (int! / int / uint / f64).
 impl -> spec:  random 128-bit values packed and unpacked by the real crate, each event judged by TLC
                evaluating the Bits.tla codec (Trace_Codec)."""
 import json, os
@@ -47,7 +47,7 @@ def run(tier, seed):
     rep.add(states=res["distinct"], transitions=res["generated"], traces_validated_against_impl=s["cases"] + summ["events"],
             evaluations=s["placements"] + summ["events"], distinct_nontrivial=s["cases"], exhaustive=True, trace_states=tstates,
             rule=f"TLC: widths 1..{maxw} x 2 orders x (zero, ones, every single-bit and single-zero pattern, sign boundaries, alternating, byte-distinct) + all values "
-                 f"of widths <= {smallw}; floats: the same family at 32/64 bits; each case at 8 bit offsets x 2 fillings (placements) and every {stride}th through the language words; "
+                 f"of widths <= {smallw}; floats: the same family at 32/64 bits; each case at 24 bit offsets (0..17, 23, 31, 33, 64, 69, 130) x 2 fillings (placements) and every {stride}th through the language words; "
                  f"{nrand} random values validated by TLC")
     rep.assumptions += ["NaN payloads through the language-level f32 path (as-casts) are not judged bit-exactly; the Bitstr API float paths are",
                         "`128 uint` answers IntegerOverflow at the language level (a cell is an i128); width 128 unsigned is judged through Bitstr::to_uint"]
